@@ -116,6 +116,15 @@ def attempt(f):
         return ("error:" + type(e).__name__, str(e).split("\n")[0][:200])
 
 
+# ----------------------------------------------------------------------------- one replay per key
+def violation_once(ctx, key, replay, found):
+    """the first witness of a key is reported; later ones are only counted (same call site + input class)"""
+    seen = ctx.notes.setdefault("witnesses_per_key", {})
+    seen[key] = seen.get(key, 0) + 1
+    if seen[key] == 1:
+        ctx.violation(key, replay, found)
+
+
 # ----------------------------------------------------------------------------- defects
 def defects():
     import torch
@@ -212,7 +221,7 @@ def report_defects(ctx):
         ctx.case(f"defect {key} reproduced={obs['reproduced']}")
         ctx.count("defect:" + ("reproduced" if obs["reproduced"] else "not-reproduced"))
         if obs["reproduced"]:
-            ctx.violation(key, dict(call=d["call"], expected=d["expected"], observed=obs,
+            violation_once(ctx, key, dict(call=d["call"], expected=d["expected"], observed=obs,
                                     replay_cmd=f"./check C08 --replay replays/C08-{key.replace('/', '_')[:60]}-{ctx.seed}.json"), found=True)
 
 
@@ -318,7 +327,7 @@ def clause_equivariance(ctx, cfg, lin, rng, torch, o3, key_prefix="EQUIV"):
     ctx.case(f"{key_prefix} {cfg.describe()} det={'-' if float(torch.det(R)) < 0 else '+'}", nontrivial=lin.weight_numel > 0)
     ctx.count(f"{key_prefix}:{'inversion' if float(torch.det(R)) < 0 else 'rotation'}")
     if not (err <= EQ_TOL * scale):
-        ctx.violation("Linear/equivariance", dict(config=cfg.to_json(), R=R.tolist(), x=x.tolist(), w=w.tolist(), b=b.tolist(), error=err,
+        violation_once(ctx, "Linear/equivariance", dict(config=cfg.to_json(), R=R.tolist(), x=x.tolist(), w=w.tolist(), b=b.tolist(), error=err,
                                                    expected="f(x D_in^T) == f(x) D_out^T"), found=True)
         return False
     return True
@@ -362,7 +371,7 @@ def clause_weights(ctx, cfg, rng, torch, o3):
     ctx.case(f"WEIGHTS {cfg.describe()}", nontrivial=lin_int.weight_numel > 0)
     ctx.count("WEIGHTS:internal-vs-external" + ("" if y_uns is None else "-vs-per-sample"))
     if not ok:
-        ctx.violation("Linear/weights-binding", dict(config=cfg.to_json(), x=x.tolist(), w=w.tolist(), b=b.tolist(),
+        violation_once(ctx, "Linear/weights-binding", dict(config=cfg.to_json(), x=x.tolist(), w=w.tolist(), b=b.tolist(),
                                                       internal=y_int.tolist(), external=y_ext.tolist(),
                                                       per_sample=None if y_uns is None else y_uns.tolist(),
                                                       expected="internal, external shared and external per-sample weights give the same output"), found=True)
@@ -406,7 +415,7 @@ def clause_batch(ctx, cfg, lin, rng, torch, o3):
         ctx.case(f"BATCH {kind} {cfg.describe()}", nontrivial=lin.weight_numel > 0 and 0 not in lead)
         if not ok:
             ok_all = False
-            ctx.violation("Linear/batch-dims/" + kind, dict(config=cfg.to_json(), lead=list(lead), kind=kind, x=x.tolist(), w=w.tolist(), b=b.tolist(),
+            violation_once(ctx, "Linear/batch-dims/" + kind, dict(config=cfg.to_json(), lead=list(lead), kind=kind, x=x.tolist(), w=w.tolist(), b=b.tolist(),
                                                             got=got, expected=f"shape {exp_shape}, equal to per-sample evaluation"), found=True)
     return ok_all
 
@@ -439,7 +448,7 @@ def clause_channels(ctx, cfg, rng, torch, o3):
     ctx.case(f"CHANNELS {cfg.describe()}", nontrivial=lin.weight_numel > 0)
     ctx.count("CHANNELS")
     if not ok:
-        ctx.violation("Linear/channels", dict(config=cfg.to_json(), x=x.tolist(), w=w.tolist(), b=b.tolist(), got=y.tolist(),
+        violation_once(ctx, "Linear/channels", dict(config=cfg.to_json(), x=x.tolist(), w=w.tolist(), b=b.tolist(), got=y.tolist(),
                                                expected="out[.., y, :] = f_in^-1/2 sum_x plain(W[x, y])(in[.., x, :]) + bias[y]"), found=True)
     return ok
 
@@ -480,7 +489,7 @@ def clause_views(ctx, cfg, lin, rng, torch, o3):
     ctx.case(f"VIEWS {cfg.describe()}", nontrivial=lin.weight_numel > 0)
     ctx.count("VIEWS")
     if not ok:
-        ctx.violation("Linear/weight-view", dict(config=cfg.to_json(), x=x.tolist(), w=w.tolist(), b=b.tolist(),
+        violation_once(ctx, "Linear/weight-view", dict(config=cfg.to_json(), x=x.tolist(), w=w.tolist(), b=b.tolist(),
                                                   expected="zeroing weight_view_for_instruction(k) removes exactly path k"), found=True)
     return ok
 
@@ -544,7 +553,7 @@ def run(ctx):
 
     # certificates that failed without a concrete failing input
     for n in sorted((failed08 | failed19) - mism):
-        ctx.violation(f"corr:cert:{n}", dict(program=n, config=info[n]["cfg"].to_json(), broken=[p for p, s in (("C08", failed08), ("C19", failed19)) if n in s],
+        violation_once(ctx, f"corr:cert:{n}", dict(program=n, config=info[n]["cfg"].to_json(), broken=[p for p, s in (("C08", failed08), ("C19", failed19)) if n in s],
                                             detail="certificate no longer checks; program and specification agree with the real module on the sampled inputs"), found=False)
 
     # ---- 5. defects
@@ -602,7 +611,7 @@ def corr_programs(ctx, info, okn, registry_ok, failed, quick):
                 # the real module differs from the documented value at a concrete input: the property fails here
                 reported.add(n)
                 x, w, b = integer_inputs(cfg, lin, F.B, s)
-                ctx.violation("Linear/value-vs-specification", dict(config=cfg.to_json(), B=F.B, input_seed=s, x=x.tolist(), w=w.tolist(), b=b.tolist(),
+                violation_once(ctx, "Linear/value-vs-specification", dict(config=cfg.to_json(), B=F.B, input_seed=s, x=x.tolist(), w=w.tolist(), b=b.tolist(),
                                                                      got=got, expected=block,
                                                                      formula="out[b,(y,)off+w*n+i] = sum_k a_k sum_(x,)u W_k[(b,)(x,y,)u,w] in[b,(x,)off_in+u*n+i] (+bias)"), found=True)
             elif (not same or not real_prog) and real_spec:
@@ -634,14 +643,14 @@ def corr_programs(ctx, info, okn, registry_ok, failed, quick):
             wrong = [t for t in range(len(got)) if dO and mask[t % dO] == "0" and got[t] != 0.0]
             if wrong:
                 reported.add(n)
-                ctx.violation("Linear/output_mask", dict(config=cfg.to_json(), mask=mask, nonzero_components=wrong, got=got,
+                violation_once(ctx, "Linear/output_mask", dict(config=cfg.to_json(), mask=mask, nonzero_components=wrong, got=got,
                                                          expected="components with output_mask 0 are identically zero"), found=True)
             else:
                 bad_run.append((n, 0, f"introspection: driver '{o[:200]}' vs module weight_numel={lin.weight_numel} bias_numel={lin.bias_numel} mask={mask} views={views}"))
     for n, s, why in bad_run[:5]:
         if n not in reported:
             reported.add(n)
-            ctx.violation(f"corr:RUN:{n}", dict(program=n, config=info[n]["cfg"].to_json(), seed=s, detail=why), found=False)
+            violation_once(ctx, f"corr:RUN:{n}", dict(program=n, config=info[n]["cfg"].to_json(), seed=s, detail=why), found=False)
     return reported
 
 
@@ -699,7 +708,7 @@ def corr_ctor_eval(ctx, o3, quick):
         if not good:
             bad.append((c, o, f"module: weight_numel={lin.weight_numel} bias_numel={lin.bias_numel} ins={ins} bias_outs={bo} mask={mask} path_weights={pw}"))
     for c, o, why in bad[:3]:
-        ctx.violation("corr:CTOR", dict(config=c.to_json(), model=o, real=why), found=False)
+        violation_once(ctx, "corr:CTOR", dict(config=c.to_json(), model=o, real=why), found=False)
     ctx.obligation("corr:CTOR", not bad, f"{len(bad)} disagreements")
     nbad = 0
     for (c, B, s), o in zip(evals, outs[n_ctor:]):
@@ -707,7 +716,7 @@ def corr_ctor_eval(ctx, o3, quick):
         if r[0] != "ok" or not o.startswith("eval ") or o == "eval rejected":
             nbad += 1
             if nbad <= 3:
-                ctx.violation("corr:EVAL", dict(config=c.to_json(), model=o[:200], real=r[0] + " " + str(r[1])[:200]), found=False)
+                violation_once(ctx, "corr:EVAL", dict(config=c.to_json(), model=o[:200], real=r[0] + " " + str(r[1])[:200]), found=False)
             continue
         lin = r[1]
         exp = parse_vec(o[5:])
@@ -720,7 +729,7 @@ def corr_ctor_eval(ctx, o3, quick):
             nbad += 1
             if nbad <= 3:
                 x, w, b = integer_inputs(c, lin, B, s)
-                ctx.violation("Linear/value-vs-specification", dict(config=c.to_json(), B=B, input_seed=s, x=x.tolist(), w=w.tolist(), b=b.tolist(), got=got, expected=exp,
+                violation_once(ctx, "Linear/value-vs-specification", dict(config=c.to_json(), B=B, input_seed=s, x=x.tolist(), w=w.tolist(), b=b.tolist(), got=got, expected=exp,
                                                                      formula="out[b,(y,)off+w*n+i] = sum_k a_k sum_(x,)u W_k[(b,)(x,y,)u,w] in[b,(x,)off_in+u*n+i] (+bias)"), found=True)
     ctx.obligation("corr:EVAL", nbad == 0, f"{nbad} disagreements")
 
@@ -736,7 +745,7 @@ def clauses(ctx, o3, torch, quick, info, names, tag=""):
     for c in cfgs:
         r = attempt(lambda: c.build(o3))
         if r[0] != "ok":
-            ctx.violation("corr:CLAUSES", dict(config=c.to_json(), real=r[0] + " " + str(r[1])[:200], detail="accepted configuration could not be built"), found=False)
+            violation_once(ctx, "corr:CLAUSES", dict(config=c.to_json(), real=r[0] + " " + str(r[1])[:200], detail="accepted configuration could not be built"), found=False)
             continue
         lin = r[1]
         ctx.count("clauses" + (":" + tag if tag else ""))
